@@ -161,7 +161,27 @@ def r08_d(prog: Program, chk: Check) -> None:
     chk.ob("R08.d", "signature::OverloadedSignature._unite_rets::multiple-any-matches", ok, prog.site("signature", ur), "whenever an Any match coexists with another match the result must be Any[multiple_overload_matches]")
 
 
+def r08_e(prog: Program, chk: Check) -> None:
+    chk.rule("R08.e", "union decomposition is available for arguments passed by position and by keyword alike", floor=2)
+    fn = prog.func("signature", "Signature.check_call_with_bound_args")
+    site = prog.site("signature", fn)
+    calls = [c for c in calls_in(fn, "_check_param_type_compatibility") if kw(c, "is_overload") is not None]
+    if not calls:
+        raise AnchorError("check_call_with_bound_args: is_overload= not passed to _check_param_type_compatibility")
+    e = kw(calls[0], "is_overload")
+    restricts = [x for x in ast.walk(e) if isinstance(x, ast.Call) and last_attr(x) == "isinstance" and len(x.args) == 2 and norm(x.args[0]) == "position"]
+    ok = True
+    for r in restricts:
+        types = {norm(t) for t in (r.args[1].elts if isinstance(r.args[1], ast.Tuple) else [r.args[1]])}
+        if not {"int", "str"} <= types:
+            ok = False
+    chk.ob("R08.e", "signature::Signature.check_call_with_bound_args::decomposition-guard", ok, site, f"`is_overload={norm(e)}` switches union decomposition off for keyword (str) or positional (int) arguments")
+    arms = {norm(n.test) for n in walk_no_nested(fn) if isinstance(n, ast.If) and "isinstance(position" in norm(n.test)}
+    chk.ob("R08.e", "signature::Signature.check_call_with_bound_args::both-rebuild-arms", "isinstance(position, int)" in arms and "isinstance(position, str)" in arms, site, "the remaining union members must be written back for positional and for keyword arguments")
+
+
 def run(prog: Program, chk: Check) -> None:
+    r08_e(prog, chk)
     r08_a(prog, chk)
     r08_bc(prog, chk)
     r08_d(prog, chk)
